@@ -74,6 +74,11 @@ type Frame struct {
 	Parent *Frame
 	Site   ssa.CallInstruction // call site in the parent
 	Depth  int
+	// Transparent marks the activation of a function that did not exist when
+	// the rule tables were confirmed (a helper introduced by a later edit):
+	// it is explored inline and its instructions count as instructions of the
+	// caller (X.Top() looks through it).
+	Transparent bool
 }
 
 func (fr *Frame) vid(v ssa.Value) string { return "@" + fr.ID + ":" + v.Name() }
